@@ -1719,6 +1719,18 @@ class Program:
             v_ = T.bin("Rem" if m_.group(2) == "rem" else "Div", args[0], args[1], ty_)
             return T.ite(T.bin("Eq", args[1], T.const(ty_, 0), ty_), T.agg("adt", "option::Option", 0, "None", []),
                          T.agg("adt", "option::Option", 1, "Some", [v_]))
+        m3_ = _re.match(r"^(u8|u16|u32|u64|u128|usize)::checked_sub$", name)
+        if m3_ and len(args) == 2:
+            # Some(a - b) exactly when b <= a (unsigned)
+            ty_ = m3_.group(1)
+            return T.ite(T.bin("Lt", args[0], args[1], ty_), T.agg("adt", "option::Option", 0, "None", []),
+                         T.agg("adt", "option::Option", 1, "Some", [T.bin("Sub", args[0], args[1], ty_)]))
+        m2_ = _re.match(r"^(u8|u16|u32|u64|u128|usize)::checked_shl$", name)
+        if m2_ and len(args) == 2:
+            # Some(x << n) exactly when n is below the bit width
+            ty_ = m2_.group(1)
+            return T.ite(T.bin("Lt", args[1], T.const("u32", INT_BITS[ty_]), "u32"),
+                         T.agg("adt", "option::Option", 1, "Some", [T.bin("Shl", args[0], args[1], ty_)]), T.agg("adt", "option::Option", 0, "None", []))
         if name in ("mem::size_of", "mem::align_of") and not args:
             c_ = self.size_of_const(name, generics)
             if c_ is not None:
